@@ -24,7 +24,7 @@ RULE = (
     "update_constraint (with and without new_name; unknown -> KeyError), and queries "
     "constraint_current(M, constraints=subset in random order, time_indices=subset, linear on/off), "
     "and a JSON round trip after which the history continues on the restored network. expr is a "
-    "generated EXPRESSION TREE over leaves Current(dict | str | list | Series) with +, -, left / "
+    "generated EXPRESSION TREE over leaves Current(dict | str | list | Series | empty) with +, -, left / "
     "right scalar *, nested to depth 3, listing stations in an order unrelated to registration. "
     "Oracle: a name-keyed model {name: (limit, {station: coefficient})} whose coefficients are "
     "evaluated in exact rational arithmetic. After EVERY step: constraints_as_df, "
@@ -76,6 +76,8 @@ def build_expr(tree):
             return Current(tree["id"]), {tree["id"]: F(1)}, False
         if k == "list":
             return Current(list(tree["ids"])), {s: F(1) for s in tree["ids"]}, False
+        if k == "empty":
+            return (Current([]) if tree.get("how") == "list" else Current()), {}, False
         if k == "series":
             d = {s: tree["coeffs"][s] for s in tree["order"]}
             return Current(pd.Series(d)), {s: F(str(v)) for s, v in d.items()}, False
@@ -109,6 +111,7 @@ def leaves(ids):
         st.sampled_from(ids).map(lambda s: {"leaf": "str", "id": s}),
         sub.map(lambda o: {"leaf": "list", "ids": list(o)}),
         dict_leaf("series"),
+        st.sampled_from([{"leaf": "empty", "how": "list"}, {"leaf": "empty", "how": "none"}]),
     )
 
 
@@ -315,6 +318,8 @@ def labels_of(state, log):
         labs.append("rename")
     if any(o["op"] == "add_unknown" for o in log):
         labs.append("failed_add")
+    if '"leaf": "empty"' in __import__("json").dumps(log):
+        labs.append("empty_operand")
     if state.reused:
         labs.append("removed_name_used_again")
     if state.json:
